@@ -220,3 +220,13 @@ func init() {
 		},
 	})
 }
+
+func init() {
+	register(&Property{
+		ID: "CTX", Title: "scratch: context rules",
+		Rules: []Rule{
+			{Name: "CTX/conn", Min: 1, Run: ruleConfinement},
+			{Name: "CTX/guarded-by", Min: 1, Run: ruleGuardedBy},
+		},
+	})
+}
